@@ -198,6 +198,17 @@ def rule_r2(ctx) -> RuleResult:
                 rr.bad(Finding("C04.R2", X.CORE, fnname, pat, "tag pattern is not (?is): sibling patterns are", n.lineno))
             if k == "noinclude_paired" and ".*?" not in pat:
                 rr.bad(Finding("C04.R2", X.CORE, fnname, pat, "paired noinclude removal is greedy: text between two noinclude blocks is lost", n.lineno))
+    # no shortcut: every return comes after all reduction steps (a "nothing to do" fast path decides by
+    # a different, textual test than the patterns -- e.g. a case-sensitive substring test in front of
+    # case-insensitive patterns -- and stores such templates unreduced)
+    last_step = max(n.lineno for _, k, _, n in steps if k in want) if steps else 0
+    early = [r for r in walk_no_nested(fn) if isinstance(r, ast.Return) and r.lineno < last_step]
+    if early:
+        for r in early:
+            rr.bad(Finding("C04.R2", X.CORE, fnname, unparse(r)[:60],
+                           "_template_to_body returns before all reduction steps have run (shortcut at line {})".format(r.lineno), r.lineno))
+    else:
+        rr.ok(fnname, "every return follows all reduction steps")
     src = unparse(fn)
     if "''.join((m.group(1) or '' for m in onlys))" in src or "''.join(m.group(1) or '' for m in onlys)" in src:
         rr.ok(fnname, "onlyinclude: join of all group(1)")
@@ -460,7 +471,7 @@ def rule_r7(ctx) -> RuleResult:
     argument loop (initialised False before the loop) are latches: inside the loop they
     are only ever set to True, or-ed with themselves, or cleared under a test of the flag
     itself (consumption)."""
-    rr = RuleResult("C04.R7", "#switch fall-through flags are latches inside the argument loop", min_instances=3)
+    rr = RuleResult("C04.R7", "#switch fall-through flags are latches and every keyed entry is offered to the match test", min_instances=4)
     dotted = "parserfns.switch_fn"
     fn = ctx.fn(dotted)
     loops = [n for n in fn.body if isinstance(n, ast.For)]
@@ -518,6 +529,45 @@ def rule_r7(ctx) -> RuleResult:
                                "so {{{{#switch:a|a|b|c=X}}}} no longer selects X".format(tgt), st.lineno))
 
     visit(lp.body, set())
+
+    # every keyed entry (`k=v`) is offered to the match test: on every path of the loop body that
+    # has destructured the entry, the test that reads the fall-through flag is evaluated before the
+    # iteration ends (an entry that can skip it -- e.g. `#default=` handled in an exclusive branch --
+    # is lost as the target of a fall-through group or of a direct match)
+    match_flags = set()
+    for n in ast.walk(lp):
+        if isinstance(n, ast.If) and any(isinstance(r, ast.Return) for b in n.body for r in ast.walk(b)):
+            match_flags |= {x.id for x in ast.walk(n.test) if isinstance(x, ast.Name) and x.id in flags}
+    if not match_flags:
+        raise AnalysisError("switch_fn: the test that selects a keyed entry (reads a fall-through flag and returns) was not found")
+
+    from ..core.flow import Flow
+
+    class MatchTested(Flow):
+        # state: (keyed: bool, tested: bool)
+        def transfer(self, st, state):
+            keyed, tested = state
+            if isinstance(st, ast.Assign) and isinstance(st.targets[0], (ast.Tuple, ast.List)) and isinstance(st.value, ast.Call) \
+                    and isinstance(st.value.func, ast.Attribute) and st.value.func.attr == "groups":
+                keyed = True
+            return [(keyed, tested)]
+
+        def branch(self, test, state):
+            keyed, tested = state
+            if any(isinstance(x, ast.Name) and x.id in match_flags for x in ast.walk(test)) and \
+                    any(isinstance(x, ast.Compare) for x in ast.walk(test)):
+                tested = True
+            return [(keyed, tested)], [(keyed, tested)]
+
+    w = MatchTested()
+    out = w.run_block(lp.body, {(False, False)})
+    ends = set(out.fall) | {s_ for _, s_ in out.cont}
+    if any(k and not t for k, t in ends):
+        rr.bad(Finding("C04.R7", PFN, dotted, "if k == val or {}: return ...".format("/".join(sorted(match_flags))),
+                       "some keyed entry can finish its loop iteration without being offered to the match test: "
+                       "{{{{#switch:a|a|#default=D|b=B}}}} no longer selects D", lp.lineno))
+    else:
+        rr.ok(dotted, "every keyed entry reaches the match test", {"paths": len(ends)})
     return rr
 
 
